@@ -102,7 +102,8 @@ def model_value(model, term):
 
 class Config:
     def __init__(self, logic=None, feas_rlimit=20_000_000, ob_rlimit=200_000_000, max_decisions=400,
-                 fresh_feas=False, ob_timeout_ms=0, feas_timeout_ms=0, max_cex_per_ob=6, max_paths=None):
+                 fresh_feas=False, ob_timeout_ms=0, feas_timeout_ms=0, max_cex_per_ob=6, max_paths=None,
+                 max_alternatives=48):
         self.logic = logic
         self.feas_rlimit = feas_rlimit
         self.ob_rlimit = ob_rlimit
@@ -112,6 +113,7 @@ class Config:
         self.feas_timeout_ms = feas_timeout_ms
         self.max_cex_per_ob = max_cex_per_ob
         self.max_paths = max_paths
+        self.max_alternatives = max_alternatives
 
 
 def _mk_solver(logic, rlimit, timeout_ms=0):
@@ -354,12 +356,18 @@ class Run:
         term = z3.simplify(term)
         if z3.is_int_value(term):
             return term.as_long()
+        tried = 0
         while True:
             k = self.guided(lambda m: model_value(m, term))
             if not isinstance(k, int):
                 raise RuntimeError("concretize: non-integer model value %r" % (k,))
             if self.branch(term == k):
                 return k
+            tried += 1
+            if tried >= self.cfg.max_alternatives:
+                # the term ranges over too many values to enumerate: give up on the remaining ones (counted as truncated)
+                self.stats.truncated += 1
+                raise Truncated()
 
     # -- obligations ------------------------------------------------------------------------
     def reach(self, label):
